@@ -339,4 +339,582 @@ theorem rounded_outside_imp (n : Int) (x : Rat) (h : OutsideAxis n ((roundHalfEv
     have hk : (n : Rat) ≤ ((roundHalfEven x : Int) : Rat) := by exact_mod_cast h
     linarith
 
+/-! ## provenance of the three volume operations -/
+
+/-- `k` is an index of an array of the given shape -/
+def InShape (shape : Ax → Int) (k : Ax → Int) : Prop := ∀ a, 0 ≤ k a ∧ k a < shape a
+
+theorem inShape_iff (shape k : Ax → Int) : inShape shape k = true ↔ InShape shape k := by
+  unfold inShape inAx InShape
+  rw [forall_ax]
+  simp only [Bool.and_eq_true, decide_eq_true_eq]
+  tauto
+
+theorem inShape_false_iff (shape k : Ax → Int) : inShape shape k = false ↔ ¬ InShape shape k := by
+  rw [← inShape_iff]; simp
+
+/-- `w` is `v` seen through the index map `m`, with padding value `c` where `m` leaves `v` -/
+structure Prov {α : Type} (v w : Vol α) (c : α) (m : (Ax → Int) → (Ax → Int)) : Prop where
+  ref : ∀ k, w.geom.toRef (toRat k) = v.geom.toRef (toRat (m k))
+  val : ∀ k, InShape w.geom.shape k →
+    (InShape v.geom.shape (m k) → w.vox k = v.vox (m k)) ∧ (¬ InShape v.geom.shape (m k) → w.vox k = c)
+
+/-- a re-indexing that maps the index set of `w` onto that of `v` (permutation of axes, identity) -/
+structure Iso {α : Type} (v w : Vol α) (m : (Ax → Int) → (Ax → Int)) : Prop where
+  ref : ∀ k, w.geom.toRef (toRat k) = v.geom.toRef (toRat (m k))
+  dom : ∀ k, InShape w.geom.shape k ↔ InShape v.geom.shape (m k)
+  val : ∀ k, w.vox k = v.vox (m k)
+
+/-- a sub-sampling: every index of `w` is an index of `v` (crop / stride / flip, identity) -/
+structure Sub {α : Type} (v w : Vol α) (m : (Ax → Int) → (Ax → Int)) : Prop where
+  ref : ∀ k, w.geom.toRef (toRat k) = v.geom.toRef (toRat (m k))
+  dom : ∀ k, InShape w.geom.shape k → InShape v.geom.shape (m k)
+  val : ∀ k, w.vox k = v.vox (m k)
+
+theorem Iso.refl {α : Type} (v : Vol α) : Iso v v id := ⟨fun _ => rfl, fun _ => Iff.rfl, fun _ => rfl⟩
+theorem Sub.refl {α : Type} (v : Vol α) : Sub v v id := ⟨fun _ => rfl, fun _ h => h, fun _ => rfl⟩
+theorem Prov.refl {α : Type} (v : Vol α) (c : α) : Prov v v c id :=
+  ⟨fun _ => rfl, fun _ h => ⟨fun _ => rfl, fun hn => absurd h hn⟩⟩
+
+theorem Iso.prov {α : Type} {v w w' : Vol α} {c : α} {m1 m2} (h1 : Iso v w m1) (h2 : Prov w w' c m2) :
+    Prov v w' c (m1 ∘ m2) := by
+  refine ⟨fun k => by rw [h2.ref, h1.ref]; rfl, fun k hk => ?_⟩
+  obtain ⟨hin, hout⟩ := h2.val k hk
+  constructor
+  · intro hv
+    have hw : InShape w.geom.shape (m2 k) := (h1.dom _).mpr hv
+    rw [hin hw, h1.val]; rfl
+  · intro hv
+    have hw : ¬ InShape w.geom.shape (m2 k) := fun hw => hv ((h1.dom _).mp hw)
+    exact hout hw
+
+theorem Prov.sub {α : Type} {v w u : Vol α} {c : α} {m1 m2} (h1 : Prov v w c m1) (h2 : Sub w u m2) :
+    Prov v u c (m1 ∘ m2) := by
+  refine ⟨fun k => by rw [h2.ref, h1.ref]; rfl, fun k hk => ?_⟩
+  have hw := h2.dom k hk
+  obtain ⟨hin, hout⟩ := h1.val (m2 k) hw
+  constructor
+  · intro hv; rw [h2.val, hin hv]; rfl
+  · intro hv; rw [h2.val, hout hv]
+
+/-! ### permutation -/
+
+theorem isPerm_cases (p : Ax → Ax) (h : isPerm p = true) :
+    (p 0 = 0 ∧ p 1 = 1 ∧ p 2 = 2) ∨ (p 0 = 0 ∧ p 1 = 2 ∧ p 2 = 1) ∨ (p 0 = 1 ∧ p 1 = 0 ∧ p 2 = 2) ∨
+    (p 0 = 1 ∧ p 1 = 2 ∧ p 2 = 0) ∨ (p 0 = 2 ∧ p 1 = 0 ∧ p 2 = 1) ∨ (p 0 = 2 ∧ p 1 = 1 ∧ p 2 = 0) := by
+  unfold isPerm at h
+  rcases ax_cases (p 0) with h0 | h0 | h0 <;> rcases ax_cases (p 1) with h1 | h1 | h1 <;>
+    rcases ax_cases (p 2) with h2 | h2 | h2 <;> simp [h0, h1, h2] at h ⊢
+
+theorem permute_iso {α : Type} (v w : Vol α) (p : Ax → Ax) (h : permute v p = .ok w) :
+    Iso v w (fun k a => k (invPerm p a)) ∧
+      w.geom = { v.geom with dir := fun i => v.geom.dir (p i), spacing := fun i => v.geom.spacing (p i),
+                             shape := fun i => v.geom.shape (p i) } ∧ isPerm p = true := by
+  unfold permute permuteGeom at h
+  by_cases hp : isPerm p = true
+  · simp only [hp, if_true] at h
+    injection h with h
+    subst h
+    refine ⟨⟨?_, ?_, fun _ => rfl⟩, rfl, hp⟩
+    · intro k
+      rcases isPerm_cases p hp with ⟨h0, h1, h2⟩ | ⟨h0, h1, h2⟩ | ⟨h0, h1, h2⟩ | ⟨h0, h1, h2⟩ | ⟨h0, h1, h2⟩ | ⟨h0, h1, h2⟩ <;>
+        apply V3.ext' <;>
+        simp [Geom.toRef, Geom.col, toRat, invPerm, h0, h1, h2, V3.add, V3.smul] <;> ring
+    · intro k
+      simp only [InShape]
+      rw [forall_ax, forall_ax]
+      rcases isPerm_cases p hp with ⟨h0, h1, h2⟩ | ⟨h0, h1, h2⟩ | ⟨h0, h1, h2⟩ | ⟨h0, h1, h2⟩ | ⟨h0, h1, h2⟩ | ⟨h0, h1, h2⟩ <;>
+        simp [invPerm, h0, h1, h2] <;> tauto
+  · simp [hp] at h
+
+/-! ### padding -/
+
+theorem pad_prov {α : Type} (v w : Vol α) (b a : Ax → Int) (c : α) (h : pad v b a c = .ok w) :
+    Prov v w c (fun k ax => k ax - b ax) ∧ padGeom v.geom b a = .ok w.geom := by
+  unfold pad at h
+  cases hg : padGeom v.geom b a with
+  | error e => simp [hg] at h
+  | ok g =>
+    simp only [hg] at h
+    injection h with h
+    subst h
+    refine ⟨⟨?_, ?_⟩, rfl⟩
+    · intro k
+      unfold padGeom at hg
+      split at hg
+      · cases hg
+      · injection hg with hg
+        subst hg
+        apply V3.ext' <;> simp [Geom.toRef, Geom.col, toRat, V3.add, V3.smul] <;> ring
+    · intro k _
+      simp only []
+      constructor
+      · intro hv
+        rw [if_pos ((inShape_iff _ _).mpr hv)]
+      · intro hv
+        rw [if_neg (by rw [inShape_iff]; exact hv)]
+
+/-! ### indexing with slices -/
+
+theorem adjustBound_pos_le (b n step : Int) (hn : 0 ≤ n) (hs : 0 < step) :
+    0 ≤ adjustBound b n step ∧ adjustBound b n step ≤ n := by
+  unfold adjustBound; split <;> (try split) <;> (try split) <;> omega
+
+theorem adjustBound_neg_ge (b n step : Int) (hn : 0 ≤ n) (hs : step < 0) :
+    -1 ≤ adjustBound b n step ∧ adjustBound b n step ≤ n - 1 := by
+  unfold adjustBound; split <;> (try split) <;> omega
+
+theorem adjustBound_start (b n step : Int) (h1 : ¬ b < -n) (h2 : ¬ b ≥ n) :
+    0 ≤ adjustBound b n step ∧ adjustBound b n step < n ∧
+      adjustBound b n step = (if b < 0 then b + n else b) := by
+  unfold adjustBound; split <;> (try split) <;> (try split) <;> omega
+
+/-- what one axis of `__getitem__` with a slice selects: positions `first + step * j`, `j < size`,
+all inside the axis -/
+theorem lastOf_neg (s : Sl) (n : Int) (hn : 0 ≤ n) (hs : s.step < 0) : -1 ≤ lastOf s n := by
+  unfold lastOf; split
+  · exact (adjustBound_neg_ge _ n s.step hn hs).1
+  · simp [hs]
+
+theorem lastOf_pos (s : Sl) (n : Int) (hn : 0 ≤ n) (hs : 0 < s.step) : lastOf s n ≤ n := by
+  unfold lastOf; split
+  · exact (adjustBound_pos_le _ n s.step hn hs).2
+  · have : ¬ s.step < 0 := by omega
+    simp [this]
+
+/-- what one axis of `__getitem__` with a slice selects: positions `first + step * j`, `j < size`,
+all inside the axis -/
+theorem getitemAxis_range (s : Sl) (n first step size : Int) (h : getitemAxis s n = .ok (first, step, size)) :
+    step = s.step ∧ step ≠ 0 ∧ 1 ≤ size ∧
+      ∀ j, 0 ≤ j → j < size → 0 ≤ first + step * j ∧ first + step * j < n := by
+  unfold getitemAxis at h
+  by_cases hstart : (decide (s.start < -n) || decide (s.start ≥ n)) = true
+  · rw [if_pos hstart] at h; cases h
+  rw [if_neg hstart] at h
+  by_cases hstop : stopOutOfRange s.stop n = true
+  · rw [if_pos hstop] at h; cases h
+  rw [if_neg hstop] at h
+  by_cases hstep : s.step = 0
+  · rw [if_pos hstep] at h; cases h
+  rw [if_neg hstep] at h
+  by_cases hrange : (decide (lastOf s n - adjustBound s.start n s.step = 0) ||
+      (decide (lastOf s n - adjustBound s.start n s.step < 0) != decide (s.step < 0))) = true
+  · rw [if_pos hrange] at h; cases h
+  rw [if_neg hrange] at h
+  injection h with h
+  simp only [Prod.mk.injEq] at h
+  obtain ⟨hf, hst, hsz⟩ := h
+  simp only [Bool.or_eq_true, decide_eq_true_eq, not_or] at hstart
+  obtain ⟨hs1, hs2⟩ := hstart
+  obtain ⟨hf0, hfn, _⟩ := adjustBound_start s.start n s.step hs1 hs2
+  have hn : 0 ≤ n := by omega
+  subst hst
+  refine ⟨rfl, hstep, ?_⟩
+  generalize hfirst : adjustBound s.start n s.step = fst at *
+  rcases lt_or_gt_of_ne hstep with hneg | hpos
+  · -- negative step
+    have hlast := lastOf_neg s n hn hneg
+    generalize lastOf s n = last at hlast hsz hrange
+    have hrneg' : last - fst < 0 := by
+      by_contra hc
+      apply hrange
+      simp [hc, hneg]
+    obtain ⟨t, ht⟩ : ∃ t : Int, t = -s.step := ⟨_, rfl⟩
+    have htpos : 0 < t := by omega
+    have hna : ((last - fst).natAbs : Int) = fst - last := by omega
+    have hnb : (s.step.natAbs : Int) = t := by omega
+    rw [hna, hnb] at hsz
+    have hq := Int.mul_ediv_self_le (x := fst - last - 1) (Int.ne_of_gt htpos)
+    have hq0 : 0 ≤ (fst - last - 1) / t := Int.ediv_nonneg (by omega) (by omega)
+    refine ⟨by omega, fun j hj0 hj => ?_⟩
+    have hjq : j ≤ (fst - last - 1) / t := by omega
+    have hmul : t * j ≤ t * ((fst - last - 1) / t) := Int.mul_le_mul_of_nonneg_left hjq (by omega)
+    have hmul0 : 0 ≤ t * j := Int.mul_nonneg (by omega) hj0
+    have hsj : s.step * j = -(t * j) := by rw [ht]; ring
+    rw [← hf, hsj]
+    omega
+  · -- positive step
+    have hlast := lastOf_pos s n hn hpos
+    generalize lastOf s n = last at hlast hsz hrange
+    have hnneg : ¬ s.step < 0 := by omega
+    have hrpos' : 0 < last - fst := by
+      by_contra hc
+      apply hrange
+      by_cases h0 : last - fst = 0
+      · simp [h0]
+      · have : last - fst < 0 := by omega
+        simp [this, hnneg]
+    have hna : ((last - fst).natAbs : Int) = last - fst := by omega
+    have hnb : (s.step.natAbs : Int) = s.step := by omega
+    rw [hna, hnb] at hsz
+    have hq := Int.mul_ediv_self_le (x := last - fst - 1) (Int.ne_of_gt hpos)
+    have hq0 : 0 ≤ (last - fst - 1) / s.step := Int.ediv_nonneg (by omega) (by omega)
+    refine ⟨by omega, fun j hj0 hj => ?_⟩
+    have hjq : j ≤ (last - fst - 1) / s.step := by omega
+    have hmul : s.step * j ≤ s.step * ((last - fst - 1) / s.step) := Int.mul_le_mul_of_nonneg_left hjq (by omega)
+    have hmul0 : 0 ≤ s.step * j := Int.mul_nonneg (by omega) hj0
+    rw [← hf]
+    omega
+
+theorem natAbs_cast_mul (st : Int) (x : Rat) :
+    ((st.natAbs : Int) : Rat) * (if st < 0 then -x else x) = (st : Rat) * x := by
+  by_cases h : st < 0
+  · have : (st.natAbs : Int) = -st := by omega
+    rw [this, if_pos h]; push_cast; ring
+  · have : (st.natAbs : Int) = st := by omega
+    rw [this, if_neg h]
+
+theorem sliceGeom_col (g : Geom) (first step size : Ax → Int) (a : Ax) :
+    (sliceGeom g first step size).col a = V3.smul (step a : Rat) (g.col a) := by
+  unfold sliceGeom Geom.col
+  simp only []
+  by_cases h : step a < 0
+  · have hn : ((step a).natAbs : Int) = -(step a) := by omega
+    rw [if_pos h, hn]
+    apply V3.ext' <;> simp only [V3.smul, V3.neg] <;> push_cast <;> ring
+  · have hn : ((step a).natAbs : Int) = step a := by omega
+    rw [if_neg h, hn]
+    apply V3.ext' <;> simp only [V3.smul] <;> ring
+
+theorem sliceGeom_toRef (g : Geom) (first step size : Ax → Int) (k : Ax → Int) :
+    (sliceGeom g first step size).toRef (toRat k) = g.toRef (toRat (fun a => first a + step a * k a)) := by
+  have hpos : (sliceGeom g first step size).pos = g.toRef (toRat first) := rfl
+  unfold Geom.toRef
+  rw [sliceGeom_col, sliceGeom_col, sliceGeom_col, hpos]
+  unfold Geom.toRef
+  apply V3.ext' <;> simp only [V3.add, V3.smul, toRat] <;> push_cast <;> ring
+
+theorem getitemGeom_ok (g : Geom) (s : Ax → Sl) (g' : Geom) (first step : Ax → Int)
+    (h : getitemGeom g s = .ok (g', first, step)) :
+    ∃ size : Ax → Int, g' = sliceGeom g first step size ∧
+      ∀ a, getitemAxis (s a) (g.shape a) = .ok (first a, step a, size a) := by
+  unfold getitemGeom at h
+  cases h0 : getitemAxis (s 0) (g.shape 0) with
+  | error e => simp [h0] at h
+  | ok r0 =>
+    cases h1 : getitemAxis (s 1) (g.shape 1) with
+    | error e => simp [h0, h1] at h
+    | ok r1 =>
+      cases h2 : getitemAxis (s 2) (g.shape 2) with
+      | error e => simp [h0, h1, h2] at h
+      | ok r2 =>
+        simp only [h0, h1, h2] at h
+        injection h with h
+        simp only [Prod.mk.injEq] at h
+        obtain ⟨hg, hf, hs⟩ := h
+        subst hf hs
+        refine ⟨mk3 r0.2.2 r1.2.2 r2.2.2, hg.symm, ?_⟩
+        rw [forall_ax]
+        exact ⟨h0, h1, h2⟩
+
+theorem getitem_sub {α : Type} (v w : Vol α) (s : Ax → Sl) (h : getitem v s = .ok w) :
+    ∃ first step : Ax → Int, getitemGeom v.geom s = .ok (w.geom, first, step) ∧
+      Sub v w (fun k a => first a + step a * k a) := by
+  unfold getitem at h
+  cases hg : getitemGeom v.geom s with
+  | error e => simp [hg] at h
+  | ok r =>
+    obtain ⟨g', first, step⟩ := r
+    simp only [hg] at h
+    injection h with h
+    subst h
+    refine ⟨first, step, rfl, ?_⟩
+    obtain ⟨size, hgeom, hax⟩ := getitemGeom_ok _ _ _ _ _ hg
+    refine ⟨?_, ?_, fun _ => rfl⟩
+    · intro k
+      simp only [hgeom]
+      exact sliceGeom_toRef _ _ _ _ _
+    · intro k hk a
+      have hr := getitemAxis_range _ _ _ _ _ (hax a)
+      have hka := hk a
+      simp only [hgeom, sliceGeom] at hka
+      exact hr.2.2.2 (k a) hka.1 hka.2
+
+/-! ## soundness of `matchGeometry` -/
+
+theorem matchGeometry_ok {α : Type} (src : Vol α) (tgt : Geom) (tol : Rat) (c : α) (r : Vol α)
+    (h : matchGeometry src tgt tol c = .ok r) :
+    forConflict src.geom tgt = false ∧ src.geom.cs = tgt.cs ∧
+    ∃ p steps nv pl, matchAlign src.geom tgt tol = .ok (p, steps) ∧
+      (if requiresPermute p then permute src p else .ok src) = .ok nv ∧
+      matchPlan nv.geom tgt steps tol = .ok pl ∧ matchApply nv pl c = .ok r ∧
+      geometryEqual r.geom tgt (some tol) = .ok true := by
+  unfold matchGeometry at h
+  by_cases hf : forConflict src.geom tgt = true
+  · rw [if_pos hf] at h; cases h
+  rw [if_neg hf] at h
+  by_cases hc : (src.geom.cs != tgt.cs) = true
+  · rw [if_pos hc] at h; cases h
+  rw [if_neg hc] at h
+  refine ⟨by simpa using hf, by simpa using hc, ?_⟩
+  cases ha : matchAlign src.geom tgt tol with
+  | error e => simp [ha] at h
+  | ok ps =>
+    obtain ⟨p, steps⟩ := ps
+    simp only [ha] at h
+    cases hp : (if requiresPermute p then permute src p else .ok src) with
+    | error e => simp [hp] at h
+    | ok nv =>
+      simp only [hp] at h
+      cases hpl : matchPlan nv.geom tgt steps tol with
+      | error e => simp [hpl] at h
+      | ok pl =>
+        simp only [hpl] at h
+        cases hap : matchApply nv pl c with
+        | error e => simp [hap] at h
+        | ok r' =>
+          simp only [hap] at h
+          cases hge : geometryEqual r'.geom tgt (some tol) with
+          | error e => simp [hge] at h
+          | ok b =>
+            cases b with
+            | false => simp [hge] at h
+            | true =>
+              simp only [hge] at h
+              injection h with h
+              subst h
+              exact ⟨p, steps, nv, pl, rfl, hp, hpl, hap, hge⟩
+
+theorem matchApply_prov {α : Type} (nv r : Vol α) (pl : AxisPlan × AxisPlan × AxisPlan) (c : α)
+    (h : matchApply nv pl c = .ok r) : ∃ m, Prov nv r c m := by
+  unfold matchApply at h
+  cases hpad : (if pl.2.2.requiresPad then
+           pad nv (mk3 pl.1.before pl.2.1.before pl.2.2.before) (mk3 pl.1.after pl.2.1.after pl.2.2.after) c
+         else .ok nv) with
+  | error e => simp [hpad] at h
+  | ok nv1 =>
+    simp only [hpad] at h
+    have h1 : ∃ m, Prov nv nv1 c m := by
+      by_cases hrp : pl.2.2.requiresPad = true
+      · rw [if_pos hrp] at hpad
+        exact ⟨_, (pad_prov _ _ _ _ _ hpad).1⟩
+      · rw [if_neg hrp] at hpad
+        injection hpad with hpad
+        subst hpad
+        exact ⟨id, Prov.refl _ _⟩
+    obtain ⟨m1, hm1⟩ := h1
+    by_cases hrc : pl.2.2.requiresCrop = true
+    · rw [if_pos hrc] at h
+      obtain ⟨first, step, _, hsub⟩ := getitem_sub _ _ _ h
+      exact ⟨_, hm1.sub hsub⟩
+    · rw [if_neg hrc] at h
+      injection h with h
+      subst h
+      exact ⟨m1, hm1⟩
+
+/-- everything `matchGeometry` returns is the source seen through an index map, padded with `c` -/
+theorem matchGeometry_prov {α : Type} (src : Vol α) (tgt : Geom) (tol : Rat) (c : α) (r : Vol α)
+    (h : matchGeometry src tgt tol c = .ok r) : ∃ m, Prov src r c m := by
+  obtain ⟨_, _, p, steps, nv, pl, _, hp, _, hap, _⟩ := matchGeometry_ok src tgt tol c r h
+  obtain ⟨m2, hm2⟩ := matchApply_prov nv r pl c hap
+  by_cases hrp : requiresPermute p = true
+  · rw [if_pos hrp] at hp
+    exact ⟨_, (permute_iso _ _ _ hp).1.prov hm2⟩
+  · rw [if_neg hrp] at hp
+    injection hp with hp
+    subst hp
+    exact ⟨_, (Iso.refl _).prov hm2⟩
+
+theorem toRef_eq_apply (g : Geom) (x : Ax → Rat) : g.toRef x = g.aff.apply ⟨x 0, x 1, x 2⟩ := by
+  apply V3.ext' <;> simp only [Geom.toRef, Geom.aff, Aff.apply, Aff.lin, V3.add, V3.smul] <;> ring
+
+theorem Aff.inv_of_det {A : Aff} (h : A.det ≠ 0) : ∃ B, A.inv = .ok B := by
+  unfold Aff.inv
+  simp [h]
+
+/-- distinct voxels of a non-degenerate geometry sit at distinct positions -/
+theorem toRef_injective (g : Geom) (hdet : g.aff.det ≠ 0) (i j : Ax → Int)
+    (h : g.toRef (toRat i) = g.toRef (toRat j)) : i = j := by
+  obtain ⟨B, hB⟩ := Aff.inv_of_det hdet
+  rw [toRef_eq_apply, toRef_eq_apply] at h
+  have := congrArg B.apply h
+  rw [Aff.inv_left hB, Aff.inv_left hB] at this
+  injection this with h0 h1 h2
+  simp only [toRat] at h0 h1 h2
+  funext a
+  rcases ax_cases a with rfl | rfl | rfl
+  · exact_mod_cast h0
+  · exact_mod_cast h1
+  · exact_mod_cast h2
+
+/-- provenance + non-degenerate source ⇒ voxels coincide with the source wherever the two overlap,
+padding elsewhere -/
+theorem Prov.coincide {α : Type} {src r : Vol α} {c : α} {m} (hp : Prov src r c m) (hdet : src.geom.aff.det ≠ 0)
+    (k : Ax → Int) (hk : InShape r.geom.shape k) :
+    (∀ i, InShape src.geom.shape i → src.geom.toRef (toRat i) = r.geom.toRef (toRat k) → r.vox k = src.vox i) ∧
+    ((∀ i, InShape src.geom.shape i → src.geom.toRef (toRat i) ≠ r.geom.toRef (toRat k)) → r.vox k = c) := by
+  obtain ⟨hin, hout⟩ := hp.val k hk
+  constructor
+  · intro i hi heq
+    rw [hp.ref k] at heq
+    have : i = m k := toRef_injective _ hdet _ _ heq
+    subst this
+    exact hin hi
+  · intro hno
+    apply hout
+    intro hmk
+    exact hno (m k) hmk (hp.ref k).symm
+
+/-! ## completeness: the translated cores on exactly aligned inputs -/
+
+
+theorem int_trunc (k : Int) : (if ((k : Int) : Rat) < 0 then Rat.ceil ((k : Int) : Rat) else Rat.floor ((k : Int) : Rat)) = k := by
+  split <;> simp [Rat.ceil_intCast, Rat.floor_intCast]
+
+theorem mgCropPad_pos (s : Int) (sp : Rat) (hsp : sp ≠ 0) (step no ni : Int) (hstep : 0 < step) (tol : Rat) (htol : 0 ≤ tol)
+    (rc rp : Bool) :
+    mgCropPad ((s : Rat) * sp) sp step no ni tol rc rp =
+      .ok (s + max (-s) 0, false, s + no * step + max (-s) 0, step, max (-s) 0, max (s + no * step - ni) 0,
+           (decide (0 < s + max (-s) 0 ∨ s + no * step + max (-s) 0 < ni + max (-s) 0 + max (s + no * step - ni) 0 ∨ 1 < step) || rc),
+           (decide (0 < max (-s) 0 ∨ 0 < max (s + no * step - ni) 0) || rp)) := by
+  unfold mgCropPad
+  have hsc : (s : Rat) * sp / sp = (s : Rat) := by field_simp
+  have hz : ¬ (tol < 0) := not_lt.mpr htol
+  simp only [hsc, roundHalfEven_intCast, int_trunc]
+  simp [hstep, hz, Bool.or_assoc]
+
+theorem mgCropPad_neg (s : Int) (sp : Rat) (hsp : sp ≠ 0) (step no ni : Int) (hstep : step < 0) (tol : Rat) (htol : 0 ≤ tol)
+    (rc rp : Bool) :
+    mgCropPad ((s : Rat) * sp) sp step no ni tol rc rp =
+      .ok (s + max (-(s + no * step) - 1) 0, decide (s + no * step + max (-(s + no * step) - 1) 0 = -1),
+           s + no * step + max (-(s + no * step) - 1) 0, step, max (-(s + no * step) - 1) 0, max (s - ni + 1) 0,
+           true, (decide (0 < max (-(s + no * step) - 1) 0 ∨ 0 < max (s - ni + 1) 0) || rp)) := by
+  unfold mgCropPad
+  have hsc : (s : Rat) * sp / sp = (s : Rat) := by field_simp
+  have hz : ¬ (tol < 0) := not_lt.mpr htol
+  have hs : ¬ (0 < step) := by omega
+  simp only [hsc, roundHalfEven_intCast, int_trunc]
+  simp [hs, hz, Bool.or_assoc]
+
+
+
+theorem mgAlign_orth (s t tol : Rat) (htol : tol ≤ 1) : mgAlign 0 s t tol = .ok (false, 0) := by
+  unfold mgAlign
+  have h1 : ¬ ((1 : Rat) < tol) := not_lt.mpr htol
+  have h0 : ¬ ((1 : Rat) < 0) := by norm_num
+  simp [h1, h0, htol]
+
+theorem mgAlign_par (σ : Int) (hσ : σ = 1 ∨ σ = -1) (m : Int) (hm : 1 ≤ m) (t tol : Rat) (ht : t ≠ 0) (htol : 0 < tol) :
+    mgAlign (σ : Rat) ((m : Rat) * t) t tol = .ok (true, σ * m) := by
+  unfold mgAlign
+  have hsc : (m : Rat) * t / t = (m : Rat) := by field_simp
+  simp only [hsc, roundHalfEven_intCast, int_trunc]
+  rcases hσ with rfl | rfl
+  · have : ¬ (tol < 0) := not_lt.mpr (le_of_lt htol)
+    simp [htol, this]
+  · have : ¬ (tol < 0) := not_lt.mpr (le_of_lt htol)
+    simp [htol, this]
+
+/-! ### slices that the plan produces -/
+
+
+theorem div_count (no step : Int) (hno : 1 ≤ no) (hstep : 0 < step) : (no * step - 1) / step + 1 = no := by
+  have h : no * step - 1 = (step - 1) + step * (no - 1) := by ring
+  rw [h, Int.add_mul_ediv_left _ _ (Int.ne_of_gt hstep)]
+  have : (step - 1) / step = 0 := Int.ediv_eq_zero_of_lt (by omega) (by omega)
+  omega
+
+theorem getitemAxis_pos (cs ce step n no : Int) (h0 : 0 ≤ cs) (h1 : cs < n) (h2 : ce ≤ n) (hstep : 0 < step)
+    (hno : 1 ≤ no) (hM : ce - cs = no * step) : getitemAxis ⟨cs, some ce, step⟩ n = .ok (cs, step, no) := by
+  have hMpos : 0 < no * step := Int.mul_pos (by omega) hstep
+  unfold getitemAxis
+  have hfirst : adjustBound cs n step = cs := by unfold adjustBound; split <;> (try split) <;> omega
+  have hlast : lastOf ⟨cs, some ce, step⟩ n = ce := by
+    unfold lastOf adjustBound; simp only []; split <;> (try split) <;> (try split) <;> omega
+  simp only [hfirst, hlast]
+  have c1 : ¬ ((decide (cs < -n) || decide (cs ≥ n)) = true) := by simp; omega
+  have c2 : ¬ (stopOutOfRange (some ce) n = true) := by unfold stopOutOfRange; simp; omega
+  have c3 : ¬ (step = 0) := by omega
+  have c4 : ¬ ((decide (ce - cs = 0) || (decide (ce - cs < 0) != decide (step < 0))) = true) := by
+    have a1 : ¬ (ce - cs = 0) := by omega
+    have a2 : ¬ (ce - cs < 0) := by omega
+    have a3 : ¬ (step < 0) := by omega
+    simp [a1, a2, a3]
+  rw [if_neg c1, if_neg c2, if_neg c3, if_neg c4]
+  have hna : ((ce - cs).natAbs : Int) = no * step := by omega
+  have hnb : (step.natAbs : Int) = step := by omega
+  rw [hna, hnb, div_count no step hno hstep]
+
+theorem getitemAxis_neg (cs ce step n no : Int) (h0 : 0 ≤ cs) (h1 : cs < n) (h2 : -1 ≤ ce) (hstep : step < 0)
+    (hno : 1 ≤ no) (hM : ce - cs = no * step) :
+    getitemAxis ⟨cs, if ce = -1 then none else some ce, step⟩ n = .ok (cs, step, no) := by
+  obtain ⟨t, ht⟩ : ∃ t : Int, t = -step := ⟨_, rfl⟩
+  have htpos : 0 < t := by omega
+  have hMt : no * step = -(no * t) := by rw [ht]; ring
+  have hMpos : 0 < no * t := Int.mul_pos (by omega) htpos
+  unfold getitemAxis
+  have hfirst : adjustBound cs n step = cs := by unfold adjustBound; split <;> (try split) <;> omega
+  have hlast : lastOf ⟨cs, if ce = -1 then none else some ce, step⟩ n = ce := by
+    unfold lastOf
+    by_cases hce : ce = -1
+    · simp [hce, hstep]
+    · simp only [hce, if_false]
+      unfold adjustBound; split <;> (try split) <;> (try split) <;> omega
+  simp only [hfirst, hlast]
+  have c1 : ¬ ((decide (cs < -n) || decide (cs ≥ n)) = true) := by simp; omega
+  have c2 : ¬ (stopOutOfRange (if ce = -1 then none else some ce) n = true) := by
+    unfold stopOutOfRange
+    by_cases hce : ce = -1
+    · simp [hce]
+    · simp [hce]; omega
+  have c3 : ¬ (step = 0) := by omega
+  have c4 : ¬ ((decide (ce - cs = 0) || (decide (ce - cs < 0) != decide (step < 0))) = true) := by
+    have a1 : ¬ (ce - cs = 0) := by omega
+    have a2 : (ce - cs < 0) := by omega
+    simp [a1, a2, hstep]
+  rw [if_neg c1, if_neg c2, if_neg c3, if_neg c4]
+  have hna : ((ce - cs).natAbs : Int) = no * t := by omega
+  have hnb : (step.natAbs : Int) = t := by omega
+  rw [hna, hnb, div_count no t hno htpos]
+
+/-- what one iteration of the crop/pad loop guarantees when the target origin sits on voxel `s` of the
+(permuted) source axis: non-negative pads, and the slice taken from the padded axis of length
+`ni + before + after` selects exactly the `no` positions `s + before + step * j` -/
+structure AxisOK (pl : AxisPlan) (s step no ni : Int) (rc rp : Bool) : Prop where
+  before_nonneg : 0 ≤ pl.before
+  after_nonneg : 0 ≤ pl.after
+  slice : getitemAxis pl.sl (ni + pl.before + pl.after) = .ok (s + pl.before, step, no)
+  pad_flag : pl.requiresPad = (decide (0 < pl.before ∨ 0 < pl.after) || rp)
+  crop_flag : pl.requiresCrop = false → (rc = false ∧ s + pl.before = 0 ∧ step = 1 ∧ no = ni + pl.before + pl.after)
+  crop_mono : rc = true → pl.requiresCrop = true
+
+theorem mgCropPad_axisOK (s : Int) (sp : Rat) (hsp : sp ≠ 0) (step no ni : Int) (hstep : step ≠ 0) (hno : 1 ≤ no)
+    (hni : 1 ≤ ni) (tol : Rat) (htol : 0 ≤ tol) (rc rp : Bool) :
+    ∃ r, mgCropPad ((s : Rat) * sp) sp step no ni tol rc rp = .ok r ∧ AxisOK (planOf r) s step no ni rc rp := by
+  rcases lt_or_gt_of_ne hstep with hneg | hpos
+  · refine ⟨_, mgCropPad_neg s sp hsp step no ni hneg tol htol rc rp, ?_⟩
+    obtain ⟨t, ht⟩ : ∃ t : Int, t = -step := ⟨_, rfl⟩
+    have htpos : 0 < t := by omega
+    have hMt : no * step = -(no * t) := by rw [ht]; ring
+    have hMge : t ≤ no * t := by
+      have := Int.mul_le_mul_of_nonneg_right hno (le_of_lt htpos)
+      omega
+    generalize hM : no * step = M at *
+    refine ⟨?_, ?_, ?_, ?_, ?_, ?_⟩
+    · simp only [planOf]; omega
+    · simp only [planOf]; omega
+    · simp only [planOf, decide_eq_true_eq]
+      exact getitemAxis_neg _ _ step _ no (by omega) (by omega) (by omega) hneg hno (by omega)
+    · simp only [planOf]
+    · simp only [planOf]; intro h; cases h
+    · simp only [planOf]; intro _; trivial
+  · refine ⟨_, mgCropPad_pos s sp hsp step no ni hpos tol htol rc rp, ?_⟩
+    have hMge : step ≤ no * step := by
+      have := Int.mul_le_mul_of_nonneg_right hno (le_of_lt hpos)
+      omega
+    generalize hM : no * step = M at *
+    refine ⟨?_, ?_, ?_, ?_, ?_, ?_⟩
+    · simp only [planOf]; omega
+    · simp only [planOf]; omega
+    · simp only [planOf, Bool.false_eq_true, if_false]
+      exact getitemAxis_pos _ _ step _ no (by omega) (by omega) (by omega) hpos hno (by omega)
+    · simp only [planOf]
+    · simp only [planOf, Bool.or_eq_false_iff, decide_eq_false_iff_not, not_or]
+      rintro ⟨⟨h1, h2, h3⟩, h4⟩
+      refine ⟨h4, by omega, by omega, ?_⟩
+      have : step = 1 := by omega
+      subst this
+      omega
+    · simp only [planOf]; intro h; simp [h]
+
 end HdVerif.Match
